@@ -38,7 +38,7 @@ REQUIRED_MONITORS = ['forced:init-keyword', 'forced:config',
                      'forced:config-object-reused',
                      'forced:parse-argument', 'fallback', 'no-two-full',
                      'forced:keyword-over-config-layout',
-                     'fallback:reparse-after-ocr',
+                     'fallback:reparse-after-ocr', 'fallback:exact',
                      'fallback:required-by-keyword',
                      'hook:ChunkParser.__init__', 'hook:parse_safe']
 
@@ -230,6 +230,19 @@ def run_fallback(case, ctx, rec, pytrs):
                 dedup=case['fallback'], witness=wit)
             return
         t = d.tracts[0]
+        deduced = [e['layout'] for e in rec.of('deduce_layout')]
+        if how is None and deduced and deduced[0] == 'copy_all' \
+                and 'segment' not in (cfg or ''):
+            # copy_all deduced for the text as a whole (no Twp/Rge or no
+            # section anywhere): the description is the preprocessed text
+            # to the letter, nothing trimmed.
+            ctx.hit('fallback:exact')
+            if t.desc != pp:
+                ctx.violation(
+                    'fallback-not-entire-text', case,
+                    f"{case['fallback']} (copy_all deduced for the whole "
+                    f"text): desc {short(t.desc, 120)!r} != preprocessed text "
+                    f"{short(pp, 120)!r}", dedup='exact', witness=wit)
         if loose(t.desc) != loose(pp):
             ctx.violation(
                 'fallback-not-entire-text', case,
